@@ -458,7 +458,7 @@ def gen_jobs(ctx):
     for name, text in CURATED:
         for li in range(len(LAYOUTS)):
             specs.append((name + "+L%d" % li, text, LAYOUTS[li], gramgen.parse_text_prods(text)))
-    nrand = 80 if quick else 1600
+    nrand = 80 if quick else 1200
     for i in range(nrand):
         big = i % 3 == 0
         r = gramgen.random_grammar(rng, max_nt=4 if big else 3, max_alts=3, max_rhs=3,
@@ -687,7 +687,7 @@ def compare(ctx, r, cases, meta, outs, st):
     kf = []
 
     def prop_fail(what, rep, key, build_related):
-        """a failure of the property text; an instance of the known finding only if it concerns a
+        """a failure of the property text; an instance of the known finding only if it concerns an SLR
         construction after an interrupted construction left productions[0].rhs rewritten, and the
         faithful model predicted exactly what the impl did"""
         if build_related and interrupted_steps and corrupted and model_gm is not None and not gm_bad:
@@ -718,15 +718,16 @@ def compare(ctx, r, cases, meta, outs, st):
         rep = dict(rep0, probe_build=e["build"])
         if e["outcome"] != e["fresh_outcome"]:
             prop_fail("constructing a parser after a history gives %s, on a fresh Grammar %s"
-                      % (e["outcome"], e["fresh_outcome"]), rep, "prop-build-outcome", True)
+                      % (e["outcome"], e["fresh_outcome"]), rep, "prop-build-outcome", bool(e["build"][1]))
         elif e["same_table"] is False:
             prop_fail("constructing a parser after a history gives another table than on a fresh Grammar",
-                      rep, "prop-build-table", True)
+                      rep, "prop-build-table", bool(e["build"][1]))
         for w, a, b in e["parses"]:
             st["probes"] += 1
             if a != b:
                 prop_fail("parser constructed after a history parses %r differently from one on a fresh Grammar"
-                          % w, dict(rep, input=w, after_history=a, fresh=b), "prop-build-parse", True)
+                          % w, dict(rep, input=w, after_history=a, fresh=b), "prop-build-parse",
+                          bool(e["build"][1]))
     if r["probe"]["reload"] is not True:
         ctx.violation("the grammar text no longer loads to the same Grammar after the history (%r)"
                       % (r["probe"]["reload"],), rep0, key="prop-reload")
